@@ -298,7 +298,6 @@ package secretstore
 //@   ensures [C09.update.fail] ret0 != nil && s != nil ==> dsh(s.datastore) == old(dsh(s.datastore)) && dsv(s.datastore) == old(dsv(s.datastore))
 //@   ensures ret0 == nil ==> s != nil && old(dsh(s.datastore))[k_ck(pkv(groupPublicKey), pkv(devicePublicKey))]
 
-
 //@ func (*secretStore).deriveDeviceChainKey
 //@   for C09, C10
 //@   requires s != nil ==> s.datastore != nil && s.logger != nil
